@@ -209,6 +209,22 @@ def wl_ondisk(ctx, rng, case):
         u = P.BloomFilter(filepath=p1, **bl.kw_hash(hf))
         compare(ctx, s, u, [a for a in acc if a[0] != "is_on_disk"], MEMBER_Q, keys, "BloomFilterOnDisk file via BloomFilter(filepath)")
         ctx.check(bytes(u) == data, "BloomFilter(filepath=<on-disk file>) re-exports other bytes")
+        # ---- structures DERIVED from on-disk operands (both on disk, or one in memory): the union / intersection is an in-memory filter
+        # like any other - every channel carries the same payload of export_size() bytes, and every loader gives it back
+        other = P.BloomFilter(est, rate, **bl.kw_hash(hf))
+        for kk in rng.sample(keys, min(4, len(keys))):
+            other.add(kk)
+        for name, r in (("ondisk.union(ondisk)", s.union(t)), ("ondisk.intersection(ondisk)", t.intersection(s)), ("ondisk.union(memory)", s.union(other)), ("memory.intersection(ondisk)", other.intersection(s))):
+            if r is None or r.elements_added < 0:
+                continue
+            pay = raw_payloads(r, sc)
+            payloads_equal(ctx, pay, f"result of {name}")
+            ctx.check(len(pay["bytes"]) == r.export_size() == (m + 7) // 8 + 20, f"result of {name}: the export has {len(pay['bytes'])} bytes, export_size() says {r.export_size()}, the layout {(m + 7) // 8 + 20}")
+            for lname, ld in (("frombytes", lambda: P.BloomFilter.frombytes(pay["bytes"], **bl.kw_hash(hf))), ("hex_string", lambda: P.BloomFilter(hex_string=r.export_hex(), **bl.kw_hash(hf)))):
+                r2 = ld()
+                compare(ctx, r, r2, [a for a in BLOOM_ACC if a[0] != "str"], MEMBER_Q, keys + ["never-added"], f"result of {name} via {lname}")
+                ctx.check(bytes(r2) == pay["bytes"], f"result of {name}: re-export after loading via {lname} differs")
+            ctx.count("results_of_set_operations_on_ondisk_operands_exported")
         case.nontrivial = True
     finally:
         for o in (s, t):
